@@ -44,6 +44,32 @@ func (c *closureTracingInfo) Next(summary *SummaryGraph, index int) *closureTrac
 	}
 }
 
+// key returns a string identifying the stack of closures being traced (the closure summary and bound variable index
+// of each entry, most recent first). The string is cut after the first entry that repeats an earlier one, so that
+// the set of possible keys stays finite even if the stack grows along a cycle.
+//
+// (nil-safe)
+func (c *closureTracingInfo) key() string {
+	if c == nil {
+		return ""
+	}
+	var sb strings.Builder
+	seen := map[string]bool{}
+	for cur := c; cur != nil; cur = cur.prev {
+		entry := "-:" + strconv.Itoa(cur.Index)
+		if cur.ClosureSummaryGraph != nil {
+			entry = strconv.FormatUint(uint64(cur.ClosureSummaryGraph.ID), 10) + ":" + strconv.Itoa(cur.Index)
+		}
+		sb.WriteString(entry)
+		sb.WriteString(";")
+		if seen[entry] {
+			break
+		}
+		seen[entry] = true
+	}
+	return sb.String()
+}
+
 // VisitorNodeStatus represents the status of a visitor node. It is either in default mode, in which case
 // the Index does not mean anything, or it is in ClosureTracing mode, in which case the index represents the index of
 // the bound variable that needs to be traced to a closure call.
@@ -100,9 +126,13 @@ type VisitorNode struct {
 	children    []*VisitorNode
 }
 
-// Key returns a unique string representation for the node with its trace
+// Key returns a unique string representation for the node with its trace and its status.
+// The status includes the stack of closures being traced, not only the kind: two nodes in ClosureTracing mode that
+// trace different stacks of closures pop to different statuses when the closure is called, so they must not be
+// identified with each other.
 func (v *VisitorNode) Key() KeyType {
-	return v.NodeWithTrace.Key() + "_" + strconv.Itoa(v.Status.Kind) + "." + strings.Join(v.AccessPaths, "|")
+	return v.NodeWithTrace.Key() + "_" + strconv.Itoa(v.Status.Kind) + "[" + v.Status.TracingInfo.key() + "]" +
+		"." + strings.Join(v.AccessPaths, "|")
 }
 
 // AddChild adds a child to the node
